@@ -39,7 +39,7 @@ BUDGET = {'quick': dict(examples=48, shards=16, seconds=80, chunk=3),
 
 KINDS = [k for k in gp.ALL_KINDS if k not in ('package_fn',)] + ['dump_to_path', 'dump_to_zip', 'stream_file', 'checkpoint'] * 2
 EXC = ['ValueError', 'KeyError', 'Custom', 'AssertionError', 'ts.CastError', 'dp.CastError', 'ts.UniqueKeyError', 'df.ValidationError',
-       'ts.ValidationError', 'dp.ValidationError', 'ts.SourceError', 'OSError']
+       'ts.ValidationError', 'dp.ValidationError', 'ts.SourceError', 'OSError', 'StopIteration']
 ARTEFACT_KINDS = ('dump_to_path', 'dump_to_zip', 'stream_file', 'checkpoint')
 
 
@@ -70,6 +70,8 @@ def make_exc(name):
         return tableschema.exceptions.SourceError('injected')
     if name == 'OSError':
         return OSError(28, 'injected')
+    if name == 'StopIteration':
+        return StopIteration('injected')
     return dataflows.ValidationError('res', {'a': 1}, 0, None)
 
 
@@ -84,7 +86,7 @@ def cases_(draw):
     extra = []
     for _ in range(draw(st.integers(2, 5))):
         kind = draw(st.sampled_from(['filter_rows', 'add_computed', 'set_type', 'validate', 'sort_rows', 'finalizer',
-                                     'conditional', 'source-raise', 'source-badtype']))
+                                     'conditional', 'source-raise', 'source-badtype', 'row_fn', 'row_fn']))
         extra.append({'via': kind, 'at': draw(st.integers(0, n)), 'row': draw(st.sampled_from([0, 1, 50, 99, 100, 101, 150])),
                       'exc': draw(st.sampled_from(EXC))})
     return {'pkg': prog['pkg'], 'steps': steps, 'exc_seed': draw(st.lists(st.sampled_from(EXC), min_size=12, max_size=12)),
@@ -150,6 +152,10 @@ def callable_fault(via, row, exc_name, fired):
             raise fired.exc
         return True
     d = dataflows
+    if via == 'row_fn':
+        def row_step(row):
+            boom()
+        return row_step
     if via == 'filter_rows':
         return d.filter_rows(condition=lambda row_: boom())
     if via == 'add_computed':
@@ -244,7 +250,8 @@ def run_with_fault(case, ctx, mode, build_fault, at, label):
         raise Violation('not-a-ProcessorError:%s' % type(err).__name__, dict(label, mode=mode, error=str(err)[:200]))
     if not any(x is fired.exc for x in cause_chain(err)):
         raise Violation('cause-is-not-the-original-exception', dict(label, mode=mode, got=[type(x).__name__ for x in cause_chain(err)]))
-    if err.cause is not fired.exc and not isinstance(err.cause, ProcessorError):
+    if err.cause is not fired.exc and not isinstance(err.cause, ProcessorError) and not isinstance(fired.exc, StopIteration):
+        # (a StopIteration raised inside a generator is turned into RuntimeError by Python itself, PEP 479)
         # the statement says "whose cause is the original exception": the direct .cause must be it
         raise Violation('direct-cause-is-not-the-original-exception', dict(label, mode=mode, cause=type(err.cause).__name__))
     committed = artefacts_after(env, order, at)
